@@ -34,17 +34,17 @@ var configs = map[string]Config{
 
 // Program is the loaded, type-checked and SSA-lowered repository.
 type Program struct {
-	Cfg      Config
-	Repo     string
-	Fset     *token.FileSet
-	Pkgs     []*packages.Package // all packages incl. deps
-	Circl    []*packages.Package // circl packages only
-	ByPath   map[string]*packages.Package
-	SSA      *ssa.Program
-	SSAPkg   map[string]*ssa.Package
-	AllFuncs map[*ssa.Function]bool
-	cg       *callgraph.Graph
-	NFuncs   int // circl functions with bodies
+	Cfg       Config
+	Repo      string
+	Fset      *token.FileSet
+	Pkgs      []*packages.Package // all packages incl. deps
+	Circl     []*packages.Package // circl packages only
+	ByPath    map[string]*packages.Package
+	SSA       *ssa.Program
+	SSAPkg    map[string]*ssa.Package
+	AllFuncs  map[*ssa.Function]bool
+	cg        *callgraph.Graph
+	NFuncs    int // circl functions with bodies
 	sentinels map[*ssa.Global]bool
 	dep       *depEngine
 }
@@ -172,24 +172,14 @@ func (p *Program) Func(pkg, recv, name string) *ssa.Function {
 	if !ok {
 		return nil
 	}
-	T := tn.Type()
-	for _, t := range []types.Type{T, types.NewPointer(T)} {
-		ms := p.SSA.MethodSets.MethodSet(t)
-		for i := 0; i < ms.Len(); i++ {
-			sel := ms.At(i)
-			if sel.Obj().Name() == name && sel.Obj().Pkg() == sp.Pkg {
-				// only methods declared directly (not promoted)
-				if len(sel.Index()) == 1 {
-					if f := p.SSA.MethodValue(sel); f != nil && f.Synthetic == "" {
-						return f
-					} else if f != nil {
-						// wrapper for value-receiver method via pointer: unwrap
-						if fn := p.SSA.FuncValue(sel.Obj().(*types.Func)); fn != nil {
-							return fn
-						}
-					}
-				}
-			}
+	named, ok := tn.Type().(*types.Named)
+	if !ok {
+		return nil
+	}
+	for i := 0; i < named.NumMethods(); i++ {
+		m := named.Method(i)
+		if m.Name() == name {
+			return p.SSA.FuncValue(m.Origin())
 		}
 	}
 	return nil
